@@ -67,6 +67,16 @@ const mxDomain = "dest.example"
 
 var mxHosts = []string{"mx1." + mxDomain, "mx2." + mxDomain}
 
+// mxHosts3: the MX host names of the mixed-MX worlds (one failure kind per host).
+var mxHosts3 = []string{"mx1." + mxDomain, "mx2." + mxDomain, "mx3." + mxDomain}
+
+// mxKinds: how a single MX of a mixed-MX world fails. refused: the host resolves,
+// the connection is refused; nxhost: the host name does not exist; dnstemp: the
+// lookup of the host fails temporarily; greet-421 / greet-554: the hop greets with
+// 4xx / 5xx; notls: local_policy demands TLS, the hop does not offer STARTTLS;
+// sts-unlisted: the MTA-STS policy in enforce mode does not list this MX.
+var mxKinds = []string{"refused", "nxhost", "dnstemp", "greet-421", "greet-554", "notls", "sts-unlisted"}
+
 // ---------------------------------------------------------------- PKI (once per process)
 
 type mxPKIT struct {
@@ -121,6 +131,10 @@ type mxWorld struct {
 	AD   bool   `json:"dnssec_signed"`     // answers carry the AD bit (needs the DNSSEC-aware resolver)
 	TLSA string `json:"tlsa,omitempty"`    // "" (no data) | ee-match | ee-mismatch | ta-mismatch | unusable | servfail
 	Ext  bool   `json:"ext_resolver_needed,omitempty"`
+
+	// PerMX, if set, gives every MX record (in order of preference) its own way to
+	// fail (mxKinds); Hop is then the plain hop behind the hosts that connect.
+	PerMX []string `json:"per_mx,omitempty"`
 
 	// next hop(s): all MX hosts behave the same
 	Hop string `json:"hop"` // plain | tls | tls-selfsigned | tls-handshake | tls-454 | down | greet-421 | greet-554 | drop | mail-451 | mail-550 | rcpt-550 | rcpt-450 | dot-452 | dot-554
@@ -203,6 +217,7 @@ type mxDraw struct {
 type mxRun struct {
 	d      mxDraw
 	srv    *smtpd.Server
+	extra  []*smtpd.Server
 	dnsSrv *mockdns.Server
 	tgt    *remote.Target
 }
@@ -215,6 +230,10 @@ func (w *mxRun) close() {
 	if w.srv != nil {
 		w.srv.Close()
 	}
+	for _, s := range w.extra {
+		s.Close()
+	}
+	w.extra = nil
 	if w.dnsSrv != nil {
 		w.dnsSrv.Close()
 		w.dnsSrv = nil
@@ -316,6 +335,36 @@ func buildMXRun(d mxDraw) (*mxRun, error) {
 	if d.TwoMX {
 		hosts = mxHosts
 	}
+	// mixed-MX worlds: one failure kind per host; hops that greet badly get a
+	// scripted server of their own
+	kindOf := map[string]string{}
+	addrOf := map[string]string{}
+	var stsListed []string
+	if len(w.PerMX) > 0 {
+		hosts = mxHosts3[:len(w.PerMX)]
+		byKind := map[string]string{}
+		for i, h := range hosts {
+			kind := w.PerMX[i]
+			kindOf[h] = kind
+			if kind != "sts-unlisted" {
+				stsListed = append(stsListed, h)
+			}
+			if kind != "greet-421" && kind != "greet-554" {
+				continue
+			}
+			if byKind[kind] == "" {
+				var es *smtpd.Server
+				ecfg := smtpd.Config{Hostname: h, PIPELINING: true, EightBitMIME: true, SMTPUTF8: true, Script: hopScript(kind)}
+				if err := retryBindMX(func() (e error) { es, e = smtpd.New(ecfg); return }); err != nil {
+					run.close()
+					return nil, err
+				}
+				run.extra = append(run.extra, es)
+				byKind[kind] = es.Addr()
+			}
+			addrOf[h] = byKind[kind]
+		}
+	}
 	dom := mockdns.Zone{AD: w.AD}
 	switch w.MX {
 	case "records":
@@ -387,7 +436,9 @@ func buildMXRun(d mxDraw) (*mxRun, error) {
 			if sts == "enforce" {
 				pol.Mode = mtasts.ModeEnforce
 			}
-			if match {
+			if len(stsListed) > 0 || len(kindOf) > 0 {
+				pol.MX = append([]string{"listed-elsewhere." + mxDomain}, stsListed...)
+			} else if match {
 				pol.MX = append([]string{mxDomain}, mxHosts...)
 			} else {
 				pol.MX = []string{"elsewhere." + mxDomain}
@@ -442,6 +493,17 @@ func buildMXRun(d mxDraw) (*mxRun, error) {
 		if down {
 			return nil, &net.OpError{Op: "dial", Net: "tcp", Err: os.NewSyscallError("connect", syscall.ECONNREFUSED)}
 		}
+		switch kindOf[host] {
+		case "refused":
+			return nil, &net.OpError{Op: "dial", Net: "tcp", Err: os.NewSyscallError("connect", syscall.ECONNREFUSED)}
+		case "nxhost":
+			return nil, &net.OpError{Op: "dial", Net: "tcp", Err: &net.DNSError{Err: "no such host", Name: host, IsNotFound: true}}
+		case "dnstemp":
+			return nil, &net.OpError{Op: "dial", Net: "tcp", Err: &net.DNSError{Err: "server misbehaving", Name: host, Server: "10.0.0.53:53", IsTemporary: true}}
+		}
+		if a := addrOf[host]; a != "" {
+			return (&net.Dialer{}).DialContext(ctx, "tcp", a)
+		}
 		return (&net.Dialer{}).DialContext(ctx, "tcp", srvAddr)
 	}
 
@@ -483,7 +545,47 @@ func coherentPair(code int, enh [3]int) bool {
 
 func runRemoteMXCase(t *testing.T, r *rep.Reporter, c *rep.Case, ci int) {
 	k := ci - remoteMXBase
-	world := mxWorlds[k%len(mxWorlds)]
+	runRemoteMXWorld(t, r, c, ci, mxWorlds[k%len(mxWorlds)])
+}
+
+// mixedMXSlots: every ordered pair of failure kinds once, and as many triples
+// drawn from (seed, index).
+var mixedMXSlots = 2 * len(mxKinds) * len(mxKinds)
+
+// runMixedMXCase: a recipient domain with two or three MX records that ALL fail,
+// each in its own way. "No usable MXs" is then built from several MX errors of
+// different temporariness; the stored / reported pair and the retry decision are
+// judged by the clauses of the remote-MX layer (cause-agnostic, no outcome model).
+func runMixedMXCase(t *testing.T, r *rep.Reporter, c *rep.Case, ci int) {
+	k := (ci - mixedMXBase) % mixedMXSlots
+	n := len(mxKinds)
+	var per []string
+	if k < n*n {
+		per = []string{mxKinds[k/n], mxKinds[k%n]}
+	} else {
+		p := prng.New(r.Seed(), uint64(ci), "c16-mixed-mx")
+		per = []string{prng.Pick(p, mxKinds), prng.Pick(p, mxKinds), prng.Pick(p, mxKinds)}
+	}
+	w := mxWorld{Name: "mixed/" + strings.Join(per, ">"), Family: "mixed-mx", MX: "records", Hop: "plain", PerMX: per}
+	distinct := map[string]bool{}
+	for _, kind := range per {
+		distinct[kind] = true
+		switch kind {
+		case "notls":
+			w.Local, w.MinTLS = true, 1
+		case "sts-unlisted":
+			w.STS, w.STSMatch = "enforce", true
+		}
+	}
+	r.Count(fmt.Sprintf("remote_mx_mixed_cases/%d-mx", len(per)), 1)
+	if len(distinct) > 1 {
+		r.Count("remote_mx_mixed_cases_heterogeneous", 1)
+	}
+	r.Distinct("remote_mx_mixed_worlds", w.Name)
+	runRemoteMXWorld(t, r, c, ci, w)
+}
+
+func runRemoteMXWorld(t *testing.T, r *rep.Reporter, c *rep.Case, ci int, world mxWorld) {
 	p := prng.New(r.Seed(), uint64(ci), "c16-remote-mx")
 	verifkit.ResetSMTPErrorObservations()
 	resetInjected()
